@@ -15,7 +15,7 @@ No socket is opened: ``available_tcp_port`` runs on FakeReactor.listenTCP.
 """
 import itertools
 
-from twisted.internet import defer, error, protocol
+from twisted.internet import protocol
 from twisted.internet.interfaces import IStreamClientEndpoint
 
 from .. import audit, gen, wire
@@ -30,9 +30,10 @@ TECHNIQUE = ("runtime monitoring: control-wire recorder + FakeTor config store +
              "oracle; complete enumeration of SocksPort configurations x request x API and of "
              "connect-outcome sequences")
 LEVEL_TEXT = ("Held on the executions observed: every cell of an enumerated table (existing SocksPort "
-              "configuration x requested port x public entry point; thousands quick, ~10^5 thorough) and "
-              "every connect-outcome sequence of length <= 3 over 11 outcome kinds for the 9050/9150 "
-              "fallback. Enumeration of the listed forms, not a proof for other SocksPort spellings.")
+              "configuration x requested port(s) x public entry point, incl. two-call histories; ~16 000 cells "
+              "quick, ~580 000 thorough) and every connect-outcome sequence of length 2 (quick) / 3 (thorough) "
+              "over 11 outcome kinds for the 9050/9150 fallback. Enumeration of the listed forms, not a proof "
+              "for other SocksPort spellings; at most one clause is reported per call (root-cause order).")
 LEVEL_NOTE = ("Trusted: FakeTor GETCONF/SETCONF semantics for the SocksPort family (vf.faketor.sockstor), "
               "vf.refs.kvline, the reference SocksPort-line reader in sockstor.parse_first, Twisted's "
               "TCP4ClientEndpoint/UNIXClientEndpoint/_WrappingFactory on the fake reactor.")
@@ -75,8 +76,9 @@ FLOORS = {
               "endpoint_targets_compared": 500, "fallback_sequences_judged": 35,
               "fallback_attempts_checked": 60, "fallback_outcomes_compared": 30,
               "reach:txtorcon.endpoints:_create_socks_endpoint": 400,
-              "reach:txtorcon.endpoints:TorClientEndpoint.connect": 150,
-              "reach:txtorcon.torconfig:TorConfig.create_socks_endpoint": 150},
+              "reach:txtorcon.endpoints:TorClientEndpoint.connect": 90,
+              "reach:txtorcon.torconfig:TorConfig.create_socks_endpoint": 150,
+              "reach:txtorcon.torconfig:TorConfig.socks_endpoint": 100},
     "thorough": {"evaluations": 20000, "use_existing_checked": 6000, "add_checked": 4000, "setconf_decoded": 3000,
                  "endpoint_targets_compared": 10000, "fallback_sequences_judged": 250,
                  "fallback_attempts_checked": 450, "fallback_outcomes_compared": 200,
@@ -351,7 +353,6 @@ def judge_step(case, step, nstep, rec, V):
     usable = [i for i in infos if i["kind"] == "usable"]
     optional = [i for i in infos if i["kind"] == "optional"]
     unset = not infos
-    started_unset = not case.get("socks") and not case.get("under")
     outcome = step["outcome"]
     if step["boot_problem"] is not None:
         rec.count("torconfig_bootstrap_failed")
@@ -434,8 +435,11 @@ def judge_step(case, step, nstep, rec, V):
         if missing_hard or not ok_new:
             lost = [i for i in infos if i["line"] in missing_hard]
             how = ["quoted" if i["first"].startswith('unix:"') else
-                   ("opts" if i["flags"] and i["first"] in extra else "other") for i in lost]
-            if fam == "torconfig" and history_cause():
+                   ("opts" if i["flags"] and i["first"] in extra else
+                    ("auto" if i["target"] == ("auto",) else "other")) for i in lost]
+            if lost and all(h == "auto" for h in how) and (fam == "direct" or len(infos) == 1):
+                c = "existing-auto-entry"
+            elif fam == "torconfig" and history_cause():
                 c = history_cause()
             elif lost and all(h == "opts" for h in how):
                 c = "existing-entry-with-option-words"
@@ -564,8 +568,8 @@ OPTS_TCP = ["", "IsolateDestAddr", "IsolateSOCKSAuth NoIPv6Traffic", "KeepAliveI
 OPTS_UNIX = ["", "WorldWritable", "GroupWritable IsolateDestAddr"]
 
 FIRSTS_QUICK = ["9050", "9150", "127.0.0.1:9051", "192.168.7.2:9052", "unix:/run/tor/socks",
-                "[::1]:9054", 'unix:"/run/tor dir/socks"', "0"]
-FIRSTS_MORE = ["0.0.0.0:9053", "unix:/tmp/t.sock", "auto", "127.0.0.2:9050", "19050", "[2001:db8::1]:9055"]
+                "[::1]:9054", 'unix:"/run/tor dir/socks"', "0", "auto"]
+FIRSTS_MORE = ["0.0.0.0:9053", "unix:/tmp/t.sock", "127.0.0.2:9050", "19050", "[2001:db8::1]:9055"]
 
 
 def with_opt(first, k):
@@ -852,6 +856,7 @@ def plan(tier, seed):
 
 def run_shard(spec, rec):
     _quiet_twisted_log()
+    rec.count("reference_selftests", sockstor.selftest() + kvline.selftest())
     tier = spec["tier"]
     if spec["mode"] == "A":
         rnd = gen.rnd_for(spec["seed"], PROPERTY, "configs", tier)      # same list in every shard
